@@ -28,7 +28,7 @@ sys.setswitchinterval(1e-5)   # scheduler hand-offs are GIL hand-offs; the defau
 
 LPC_LABEL = {"start": "start", "initlock": "acq", "accept": "accept", "lock1": "acq", "lock2": "acq",
              "check": "acq", "final": "acq", "exited": "EXIT"}
-HPC_LABEL = {"start": "start", "serving": "serve", "fin": "acq", "done": "EXIT"}
+HPC_LABEL = {"start": "start", "semwait": "sem", "serving": "serve", "fin": "acq", "done": "EXIT"}
 
 
 def _lab(label: str) -> str:
@@ -347,7 +347,7 @@ def apply(w: IdleWorld, action: str, args: list) -> dict:
         return w.loop("timeout")
     if action in ("LStart", "LInit", "LLock1", "LLock2", "LCheck", "LFinal"):
         return w.loop()
-    if action in ("HStart", "HServeEnd", "HFin"):
+    if action in ("HStart", "HAcquire", "HServeEnd", "HFin"):
         return w.handler(int(args[0]))
     if action == "TFire":
         return w.fire(int(args[0]))
@@ -383,10 +383,10 @@ def differs(obs: dict, exp: dict) -> list[str]:
     return out
 
 
-def run_path(behaviour: list[dict], n_conns: int, idle_timeout: float = 5.0) -> dict:
+def run_path(behaviour: list[dict], n_conns: int, idle_timeout: float = 5.0, max_par: int = 0) -> dict:
     """Replay one TLC path on the real code.  Returns the recorded trace and the first divergence (if any)."""
     drift = None
-    with IdleWorld(idle_timeout=idle_timeout) as w:
+    with IdleWorld(idle_timeout=idle_timeout, max_connections=max_par or None) as w:
         for i, b in enumerate(behaviour):
             try:
                 ev = apply(w, b["action"], b["args"])
@@ -402,7 +402,7 @@ def run_path(behaviour: list[dict], n_conns: int, idle_timeout: float = 5.0) -> 
         trace = list(w.trace)
         errors = {k: repr(v) for k, v in w.sched.errors.items()}
         mon = w.monitor_history()
-    return {"trace": trace, "mon": mon, "drift": drift, "errors": errors}
+    return {"trace": trace, "mon": mon, "drift": drift, "errors": errors, "mp": max_par}
 
 
 def run_random(rng, n_conns: int, max_steps: int = 60, idle_timeout: float = 5.0, max_connections=None,
@@ -422,7 +422,7 @@ def run_random(rng, n_conns: int, max_steps: int = 60, idle_timeout: float = 5.0
         trace = list(w.trace)
         errors = {k: repr(v) for k, v in w.sched.errors.items()}
         mon = w.monitor_history()
-    return {"trace": trace, "mon": mon, "drift": None, "errors": errors}
+    return {"trace": trace, "mon": mon, "drift": None, "errors": errors, "mp": max_connections or 0}
 
 
 def calibrate() -> dict:
